@@ -106,7 +106,7 @@ static void c15_batch(long idx, long n, uint64_t seed) {
         Rng r(seed);
         RawServer srv; srv.start();
         int threads = r.range(1, 4), maxConn = r.range(1, 8), nreq = r.range(1, 64);
-        int scenario = (int)((n + g_opts.shard) % 9);   // 0 only answering behaviours, 1 with never-answered + time-outs, 2 with late answers, 3 close-after mix,
+        int scenario = (int)((n + g_opts.shard) % 10);   // 0 only answering behaviours, 1 with never-answered + time-outs, 2 with late answers, 3 close-after mix,
                                        // 4 answered requests that carry a time-out followed by slow requests without one,
                                        // 5 a response and the expiry of a time-out reaching the client in ONE poll result (see below)
                                        // 6 requests to a host whose connect() fails on the spot, queued together with requests that need new connections to
@@ -121,6 +121,8 @@ static void c15_batch(long idx, long n, uint64_t seed) {
         if (scenario == 6 && !deadHostWorks) { scenario = 0; count("dead_host_scenario_not_applicable_here"); }
         if (scenario == 6) { threads = 1; maxConn = r.range(3, 8); nreq = r.range(6, 20); }
         if (scenario == 7) { threads = 1; maxConn = 2; nreq = 520; }
+        if (scenario == 9) { threads = 1; maxConn = 1; nreq = 3; }   // 9 a long run of time-outs on ONE connection: 140 requests (time-out 20 ms) that the server never answers, one after the other, each has to be
+                                                                      //   rejected; then answered requests on that connection have to be fulfilled (whatever the connection keeps per time-out must not run out)
         if (scenario == 8) { threads = 1; maxConn = 2; nreq = 4; }
         if (scenario == 4) nreq = std::min(nreq, 16 * maxConn);   // its slow requests take 0.6 s each: the batch has to fit into the waiting bound
         Http::Experimental::Client client;
@@ -132,7 +134,7 @@ static void c15_batch(long idx, long n, uint64_t seed) {
         // application threads issuing the batch: 1, or several released together (the pool is then claimed concurrently by the
         // issuers and by the I/O threads handing queued requests over)
         int issuers = r.chance(2, 5) ? r.range(2, 6) : 1;
-        if (scenario == 5 || scenario == 6 || scenario == 7 || scenario == 8) issuers = 1;
+        if (scenario == 5 || scenario == 6 || scenario == 7 || scenario == 8 || scenario == 9) issuers = 1;
         cfg += " issuers=" + std::to_string(issuers);
         set_case(idx, Json().num("i", idx).str("phase", "c15").str("config", cfg).done());
         std::vector<int> params((size_t)nreq); std::vector<std::string> bodies((size_t)nreq); std::vector<int> pauseAfter((size_t)nreq, -1); std::vector<char> dead((size_t)nreq, 0), lenient((size_t)nreq, 0); std::atomic<int> ioBusy{0};
@@ -163,7 +165,7 @@ static void c15_batch(long idx, long n, uint64_t seed) {
                 if (k == 0) { b = B_DELAYED; param = 10596; to = 0; } else if (k <= 3) { b = B_LATE; param = 599; to = 200; } else { b = B_IMMEDIATE; param = 5; to = 0; }
                 beh[(size_t)k] = b;
             }
-            if (scenario == 7) { b = B_IMMEDIATE; param = 0; to = 0; beh[(size_t)k] = b; }
+            if (scenario == 7 || scenario == 9) { b = B_IMMEDIATE; param = 0; to = 0; beh[(size_t)k] = b; }
             if (scenario == 8) {
                 // 0: answered after 100 ms, its continuation keeps the I/O thread for 400 ms.  1 (R): answered after 150 ms, time-out 300 ms, on the
                 // second connection.  2 (F) and 3 (Q) are issued while the thread is held: F is answered after 1 s, Q (time-out 200 ms) never.
@@ -173,7 +175,7 @@ static void c15_batch(long idx, long n, uint64_t seed) {
             timeoutMs[(size_t)k] = to; params[(size_t)k] = param;
             if (r.chance(1, 3)) { int bl = r.range(1, 300); for (int j = 0; j < bl; j++) bodies[(size_t)k] += (char)r.below(256); }
             if (r.chance(1, 6)) pauseAfter[(size_t)k] = r.range(0, 3);
-            if (scenario == 6 || scenario == 7 || scenario == 8) { pauseAfter[(size_t)k] = -1; if (scenario != 6) bodies[(size_t)k].clear(); }
+            if (scenario == 6 || scenario == 7 || scenario == 8 || scenario == 9) { pauseAfter[(size_t)k] = -1; if (scenario != 6) bodies[(size_t)k].clear(); }
         }
         auto build = [&](int k) {
             int b = beh[(size_t)k], param = params[(size_t)k], to = timeoutMs[(size_t)k]; const std::string& bodyIn = bodies[(size_t)k];
@@ -232,6 +234,18 @@ static void c15_batch(long idx, long n, uint64_t seed) {
                 double e7 = lv::now() + 15.0 * lf; while (!allSettled() && lv::now() < e7) lv::msleep(5);
                 count("long_history_waves");
             }
+        }
+        if (scenario == 9 && allSettled()) {
+            auto issue = [&](int k, int b, int to) { Outcome* o = out[(size_t)k].get();
+                try { auto rb = client.get(base + "/t/" + std::to_string(k) + "/" + std::to_string(b) + "/0"); if (to) rb.timeout(std::chrono::milliseconds(to));
+                      rb.send().then([o](Http::Response resp) { int t = -1; sscanf(resp.body().c_str(), "tag=%d;", &t); o->tag = t; o->status = (int)resp.code(); o->fulfilled++; }, [o](std::exception_ptr) { o->rejected++; }); }
+                catch (const std::exception& e) { o->err = e.what(); o->rejected++; } };
+            int runLen = (int)g_opts.num("timeout-run", 140);
+            for (int j = 0; j < runLen; j++) { int k = nreq++; out.emplace_back(new Outcome()); beh.push_back(B_NEVER); timeoutMs.push_back(20); issue(k, B_NEVER, 20);
+                Outcome* o = out[(size_t)k].get(); double e9 = lv::now() + 3.0 * lf; while (!(o->fulfilled.load() + o->rejected.load()) && lv::now() < e9) lv::msleep(1);
+                if (!(o->fulfilled.load() + o->rejected.load())) break; count("timeouts_in_a_row_on_one_connection"); }
+            for (int j = 0; j < 3 && allSettled(); j++) { int k = nreq++; out.emplace_back(new Outcome()); beh.push_back(B_IMMEDIATE); timeoutMs.push_back(0); issue(k, B_IMMEDIATE, 0);
+                double e9 = lv::now() + 5.0 * lf; while (!allSettled() && lv::now() < e9) lv::msleep(2); }
         }
         // second wave: once the batch has drained, further requests through the same client must still be served
         // (connections handed back to the pool, nothing left claimed)
@@ -377,7 +391,7 @@ static void run_c15(long cases) {
     for (long n = 0; n < cases; n++) {
         long idx = g_opts.shard * 100000L + n;
         uint64_t seed = r.next();
-        int scenario = (int)((n + g_opts.shard) % 9);
+        int scenario = (int)((n + g_opts.shard) % 10);
         pid_t pid = fork();
         if (pid == 0) { c15_batch(idx, n, seed); _exit(0); }
         double end = lv::now() + 25.0 * lv::load_factor(); int status = 0; bool exited = false;
